@@ -42,6 +42,9 @@ CHECKS = {
          "Every byte string up to length 4 (quick) / 6 (thorough) over {a, C3, A9, E2, 82, AC, F0, FF} (ASCII, valid 2/3-byte runes, truncated and invalid sequences), every n in -3..8, every []int shape up to length 4/5 (nil, empty, spare capacity) under every mutation script, every map over keys {a,b,c,nil} x values {1,nil} in three map types with deletion scripts, and every channel content up to length 3 are fed to the seq.New*Iter iterators and to a native range loop in the same process; the pair sequences must be equal (multisets plus the spec deletion rules for maps).",
          "Trusted: the Go compiler own range statement as reference. Inputs beyond the bounds (longer strings, other element types) are not covered; random longer inputs mentioned by the property are sampling and are not done.",
          "DESIGN.md section 2, C10"),
+ "C12": ("bounded-exhaustive fault-style enumeration: every base program x every statement position x one injected unsupported construct, verdict rejected / unbuildable / builds-and-agrees with the reference",
+         "Every base program of the full control-flow grammar up to size 1 (quick) / 2 (thorough), plus the empty base, gets one unsupported construct inserted at every statement position of every block: goto over an effect / over a yield, labelled break / continue out of a nested loop, select, defer (plain, in an if, in a loop), fallthrough out of / into a yielding case, range over pointer-to-array, yield in an if initialiser, yield inside a plain closure - and the same constructs inside nested plain closures as negative controls that must be accepted. Hand-written additions: range over a type parameter, over a pointer variable, wrong result signatures (must be rejected). A program that is rejected with a diagnostic or whose output does not build satisfies the property; one that builds is explored like any other program and its marked log must equal the reference's (in which Go compiles the construct natively inside the coroutine body).",
+         PROG_NOTE + " `go Yield(v)` is excluded from exploration (no defined reference behaviour); its rejection is covered by the same diagnostic.", "DESIGN.md section 2 C12"),
  "C14": ("exhaustive enumeration of interleavings: every ordered k-tuple of live iterators x every schedule of m advances each, each iterator compared with its solo run",
          "A pool of 9 compiled generators (closure state, recursive tree walk and recursion through YieldFrom, range-backed, infinite with switch/continue, consumer-inside-generator, generator literal called twice, type switch with yielding post, hand-advanced delegate) is instantiated as every ordered pair (m=4/5) and triple (m=2/3) with repetition; all interleavings of the advances are executed on the real compiled code, each iterator with its own environment, and its (MoveNext, Current, private effect log) sequence must equal its solo run. At runtime level one Seq VALUE is started three times and all interleavings are run. Supplements, reported separately and not the basis of the claim: the same bodies free-running on goroutines under -race (sampling), and a static audit that seq/ and the generated code declare no package-level variable and no go statement.",
          "Trusted: solo run as oracle (its agreement with the source is C01/C02's subject and the pool is also explored there). The runtime has no synchronisation operations, so there are no scheduling points inside an advance; true parallelism is covered only by the sampled -race pass.", "DESIGN.md section 2 C14"),
